@@ -248,6 +248,10 @@ func o3Job(j Job) (res Result) {
 	}
 
 	for _, cs := range cases {
+		if j.late() {
+			res.Partial = true
+			return
+		}
 		q := cloneProposal(p)
 		if cs.mutate != nil {
 			cs.mutate(q)
